@@ -505,6 +505,26 @@ pub fn hs_variant(r: &mut Rng, sz: Sz, variant: usize) -> AHs {
         _ => AHs::KeyUpdate(r.u8b()),
     }
 }
+/// A Certificate body in the TLS 1.3 layout (RFC 8446 4.4.2) with a NON-EMPTY request context: under the
+/// TLS <= 1.2 layout the crate documents, its first three bytes are a chain length that overruns the body
+pub fn tls13_certificate_body(r: &mut Rng) -> Vec<u8> {
+    let c = r.usize(1, 8);
+    let mut v = vec![c as u8];
+    v.extend(r.bytes(c));
+    let mut list = Vec::new();
+    for _ in 0..r.usize(1, 3) {
+        let cert = if r.bool() { der_seq(r, 40) } else { let n = r.usize(1, 30); r.bytes(n) };
+        list.extend_from_slice(&[0, (cert.len() >> 8) as u8, cert.len() as u8]);
+        list.extend_from_slice(&cert);
+        let ext = if r.bool() { vec![] } else { exts_bytes(&ext_list(r, TINY, 2)) };
+        list.extend_from_slice(&[(ext.len() >> 8) as u8, ext.len() as u8]);
+        list.extend_from_slice(&ext);
+    }
+    v.extend_from_slice(&[(list.len() >> 16) as u8, (list.len() >> 8) as u8, list.len() as u8]);
+    v.extend(list);
+    v
+}
+
 /// A handshake message cut INSIDE its body with the u24 length rewritten to the cut size (self-consistent
 /// framing, structurally incomplete body): hello messages and the list-bearing messages, cut at a position
 /// where no valid encoding ends. Returns (message bytes, variant name, cut position).
